@@ -167,15 +167,38 @@ struct MapStream : Family {
 	}
 
 	std::vector<uint8_t> writeMap(const Plan& plan, RunCtx& ctx, const Map& map, const std::string& wb, const std::string& tag, const char* clause) {
-		std::vector<uint8_t> out;
+		std::vector<uint8_t> out, otherJunk;
+		bool twoWriters = false;
 		std::string what;
 		Out o = callLib(plan, [&] {
 			if (wb == "dyn") { Stream::DynamicMemoryWriter w; map.Write(w); auto rd = w.GetReader(); out.resize(static_cast<size_t>(rd.Length())); rd.Read(out.data(), out.size()); }
 			else if (wb == "sim") { SimWriter w; map.Write(w); out = w.data; }
 			else if (wb == "path") map.Write(std::string("_w/") + tag + ".map"); // the filename overload
-			else { { Stream::FileWriter w("_w/" + tag + ".map"); map.Write(w); } }
+			else {
+				// a second file writer may be alive on the same thread while the map is written, its own writes and its close falling
+				// before, between or after those of the map's writer: two writers, two files, nothing shared
+				uint64_t two = mix64(plan.seed, hashstr(tag) ^ 0x2f) % 5;
+				if (two == 0) { Stream::FileWriter w("_w/" + tag + ".map"); map.Write(w); }
+				else {
+					otherJunk = prngBytes(plan.seed ^ 0x07e4, 300 + plan.seed % 900);
+					auto w = std::make_unique<Stream::FileWriter>("_w/" + tag + ".map");
+					auto other = std::make_unique<Stream::FileWriter>("_w/" + tag + ".other");
+					if (two == 1) { map.Write(*w); other->Write(otherJunk.data(), otherJunk.size()); map.Write(*other); other.reset(); w.reset(); }
+					else if (two == 2) { other->Write(otherJunk.data(), otherJunk.size()); map.Write(*w); map.Write(*other); w.reset(); other.reset(); }
+					else if (two == 3) { map.Write(*w); other->Write(otherJunk.data(), otherJunk.size()); map.Write(*other); w.reset(); other.reset(); }
+					else { other->Write(otherJunk.data(), otherJunk.size()); map.Write(*other); map.Write(*w); other.reset(); w.reset(); }
+					twoWriters = true;
+				}
+			}
 		}, &what);
 		if (o != OkOut) ctx.fail(clause, "Map::Write failed: " + what);
+		if (twoWriters) {
+			ctx.count("probe.two_file_writers_alive");
+			std::vector<uint8_t> first, second;
+			if (!disk::get("_w/" + tag + ".map", first) || !disk::get("_w/" + tag + ".other", second)) ctx.fail(clause, "Map::Write to a file left no file (two file writers were alive)");
+			std::vector<uint8_t> want = otherJunk; want.insert(want.end(), first.begin(), first.end());
+			if (second != want) ctx.fail(clause, "two file writers were alive at once on one thread: the second file does not hold what was written through its writer (its own " + std::to_string(otherJunk.size()) + " bytes followed by the map): " + firstDiff(second, want));
+		}
 		if ((wb == "file" || wb == "path") && !disk::get("_w/" + tag + ".map", out)) ctx.fail(clause, "Map::Write to a file left no file");
 		return out;
 	}
